@@ -6,9 +6,13 @@ use std::panic::{catch_unwind, AssertUnwindSafe};
 
 mod util;
 mod ops_pattern;
+mod ops_summary;
 
 fn run(op: &str, args: &[&str]) -> String {
     if let Some(r) = ops_pattern::run(op, args) {
+        return r;
+    }
+    if let Some(r) = ops_summary::run(op, args) {
         return r;
     }
     "UNKNOWN-OP".to_string()
